@@ -16,25 +16,29 @@ CodeOf(class) == CASE class = "block" -> -1 [] class = "symbol" -> -2 [] class =
                    [] class = "method" -> -5 [] class = "checksum" -> -6 [] OTHER -> 0
 IsPrefixOf(a, b) == Len(a) <= Len(b) /\ a = SubSeq(b, 1, Len(a))
 
-Judge(s) ==
-  LET ref == Unwrap(RefWrap(s.wrap), s.inp, s.dict)
-      lenient == IF "d" \in DOMAIN ref THEN ref.d.lenient ELSE FALSE
+(* a record groups all runs (one-shot / streaming schedules / decode kernels) of the SAME stream in the same
+   mode, so the reference decode is computed once: g = [wrap, inp, dict, runs], run = [scn, api, calls, end, ...] *)
+JudgeRun(g, s, ref) ==
+  LET lenient == (IF "d" \in DOMAIN ref THEN ref.d.lenient ELSE FALSE) \/ (IF "lenient" \in DOMAIN ref.hdr THEN ref.hdr.lenient ELSE FALSE)
       ncalls == Len(s.calls)
       step(acc, k) ==
         LET c == s.calls[k]
             delivered == acc.delivered \o c.out
-            v1 == IF c.c > c.ai \/ c.p > c.ao \/ Len(c.out) # c.p \/ c.dto # c.p \/ c.touched_outside # 0 THEN {<<k, "I1-wrote-or-read-beyond-avail">>} ELSE {}
-            v2 == IF ~lenient /\ ~IsPrefixOf(delivered, ref.out) THEN {<<k, "I2-delivered-bytes-differ-from-reference-decode">>} ELSE {}
+            v1 == (IF c.c > c.ai \/ c.p > c.ao \/ c.touched_outside # 0 THEN {<<k, "I1-wrote-or-read-beyond-avail">>} ELSE {})
+                  \cup (IF c.ret >= 0 /\ (Len(c.out) # c.p \/ c.dto # c.p) THEN {<<k, "I1-total_out-disagrees-with-pointer-advance">>} ELSE {})
+            \* bytes handed over by a call that reports no error must be the next bytes of the reference decode (what a call
+            \* returns together with an error code is not relied upon: the property only constrains reported success)
+            v2 == IF c.ret >= 0 /\ ~lenient /\ ~IsPrefixOf(delivered, ref.out) THEN {<<k, "I2-delivered-bytes-differ-from-reference-decode">>} ELSE {}
             v3 == (IF c.ret \notin Documented(s.api) THEN {<<k, "I3-undocumented-return-code">>} ELSE {})
                   \cup (IF c.ret < 0 /\ ref.tag = "Valid" /\ ~lenient THEN {<<k, "I3-valid-stream-rejected">>} ELSE {})
-                  \cup (IF c.ret = 6 /\ ~(RefWrap(s.wrap) = "zlib" /\ ref.hdr.st = "ok" /\ ref.hdr.fields.dict_flag) THEN {<<k, "I3-dictionary-requested-without-FDICT">>} ELSE {})
+                  \cup (IF c.ret = 6 /\ ~(RefWrap(g.wrap) = "zlib" /\ ref.hdr.st = "ok" /\ ref.hdr.fields.dict_flag) THEN {<<k, "I3-dictionary-requested-without-FDICT">>} ELSE {})
             fin == c.bs = "FINISH" /\ c.ret >= 0      \* completion reported as success (an error code with the state parked in FINISH is a report, not a success)
             v4 == IF ~fin THEN {}
                   ELSE (IF ref.tag # "Valid" /\ ~lenient THEN {<<k, "I4-finished-a-stream-the-spec-rejects-" \o ref.tag \o "-" \o ref.class>>} ELSE {})
                        \cup (IF ref.tag = "Valid" /\ delivered # ref.out THEN {<<k, "I4-finished-with-different-output">>} ELSE {})
                        \cup (IF ref.tag = "Valid" /\ c.fed - c.ain - (c.ril \div 8) # ref.endByte THEN {<<k, "I4-reported-input-position-is-not-the-end-of-stream">>} ELSE {})
-                       \cup (IF ref.tag = "Valid" /\ ChecksumKind(s.wrap) = "crc32" /\ <<c.crc_lo, c.crc_hi>> # Crc32(ref.out) THEN {<<k, "I4-state-crc-differs-from-CRC32-of-output">>} ELSE {})
-                       \cup (IF ref.tag = "Valid" /\ ChecksumKind(s.wrap) = "adler32" /\ <<c.crc_lo, c.crc_hi>> # Adler32(ref.out) THEN {<<k, "I4-state-crc-differs-from-Adler32-of-output">>} ELSE {})
+                       \cup (IF ref.tag = "Valid" /\ ChecksumKind(g.wrap) = "crc32" /\ <<c.crc_lo, c.crc_hi>> # Crc32(ref.out) THEN {<<k, "I4-state-crc-differs-from-CRC32-of-output">>} ELSE {})
+                       \cup (IF ref.tag = "Valid" /\ ChecksumKind(g.wrap) = "adler32" /\ <<c.crc_lo, c.crc_hi>> # Adler32(ref.out) THEN {<<k, "I4-state-crc-differs-from-Adler32-of-output">>} ELSE {})
             idle == c.c = 0 /\ c.p = 0 /\ c.ai > 0 /\ c.ao > 0 /\ c.ret = 0 /\ ~fin
             stall == IF idle THEN acc.stall + 1 ELSE 0
             v6 == IF stall >= 2 THEN {<<k, "I6-no-progress-with-input-and-space-available">>} ELSE {}
@@ -54,6 +58,7 @@ Judge(s) ==
       nblocks |-> IF "d" \in DOMAIN ref THEN Len(ref.d.blocks) ELSE 0,
       types |-> IF "d" \in DOMAIN ref THEN [i \in 1..Len(ref.d.blocks) |-> ref.d.blocks[i].type] ELSE <<>>,
       maxdist |-> IF "d" \in DOMAIN ref THEN FoldLeft(LAMBDA m, b : MaxN(m, b.maxDist), 0, ref.d.blocks) ELSE 0]
-Out == [i \in 1..Len(Scn) |-> Judge(Scn[i])]
+Judge(g) == LET ref == Unwrap(RefWrap(g.wrap), g.inp, g.dict) IN [i \in 1..Len(g.runs) |-> JudgeRun(g, g.runs[i], ref)]
+Out == FoldLeft(LAMBDA acc, i : acc \o Judge(Scn[i]), <<>>, Range1(Len(Scn)))
 ASSUME ndJsonSerialize(IOEnv.VERIF_OUT, Out)
 =============================================================================
